@@ -62,7 +62,7 @@ func (a *simAccepter) Accept(ctx context.Context) (channel.Channel, error) {
 		a.queue = a.queue[1:]
 	}
 	if err != nil {
-		a.w.acceptErr = err
+		a.w.acceptErr, a.w.acceptErrSeq = err, a.w.seq()
 		a.w.r.Ev("accept.err", "", 0, 0, err.Error())
 		return nil, err
 	}
@@ -88,12 +88,12 @@ type fakeListener struct {
 func (l *fakeListener) Accept() (net.Conn, error) {
 	rt.Block("listener:accept", func() bool { return len(l.queue) > 0 || l.closed || l.failErr != nil })
 	if l.failErr != nil {
-		l.w.acceptErr = l.failErr
+		l.w.acceptErr, l.w.acceptErrSeq = l.failErr, l.w.seq()
 		return nil, l.failErr
 	}
 	if l.closed {
 		err := &net.OpError{Op: "accept", Net: "sim", Err: net.ErrClosed}
-		l.w.acceptErr = err
+		l.w.acceptErr, l.w.acceptErrSeq = err, l.w.seq()
 		l.w.r.Ev("accept.err", "", 0, 0, err.Error())
 		return nil, err
 	}
@@ -241,6 +241,7 @@ type loopWorld struct {
 	failSvc   map[int]bool
 	accepted  int
 	acceptErr error
+	acceptErrSeq int
 	netPop    bool
 	acc       *simAccepter
 	lst       *fakeListener
@@ -333,7 +334,7 @@ func (w *loopWorld) clientTask(c *loopConn) {
 func scenarioC20(r *Run) {
 	strat := r.drawStrategy()
 	g := r.Gen
-	w := &loopWorld{r: r, th: newTagHandlers(r), failSvc: map[int]bool{}, cancelSeq: -1}
+	w := &loopWorld{r: r, th: newTagHandlers(r), failSvc: map[int]bool{}, cancelSeq: -1, acceptErrSeq: -1}
 	theLoopWorld = w
 	w.netPop = g.Chance("netaccepter", 0.4)
 	nconn := g.Int("nconn", 5)
@@ -563,8 +564,10 @@ func (w *loopWorld) check(failErr error, ctxErrClosed bool) {
 		}
 		// rules that need no knowledge of which connection the service served
 		// (a connection that never carried a call cannot be told apart)
-		if st.Stopped && !(w.cancelSeq >= 0 && w.cancelSeq < f.Seq) {
-			r.Fail("finish-wrong-args", "service %d: status Stopped, but the context had not ended before Finish (#%d)", s.Idx, f.Seq)
+		if st.Stopped && !(w.cancelSeq >= 0 && w.cancelSeq < f.Seq) && !(w.acceptErrSeq >= 0 && w.acceptErrSeq < f.Seq) {
+			// (Loop may also stop its servers when the accepter has failed: the
+			// property only says that it waits for them)
+			r.Fail("finish-wrong-args", "service %d: status Stopped, but neither had the context ended nor the accepter failed before Finish (#%d)", s.Idx, f.Seq)
 			return
 		}
 		if st.Closed {
@@ -594,15 +597,11 @@ func (w *loopWorld) check(failErr error, ctxErrClosed bool) {
 				return
 			}
 			// status consistent with the cause
-			ctxBefore := w.cancelSeq >= 0 && w.cancelSeq < f.Seq
 			clientBefore := c.ClientClosed >= 0 && c.ClientClosed < f.Seq
 			if st.Err != nil {
 				continue
 			}
-			if st.Stopped && !ctxBefore {
-				r.Fail("finish-wrong-args", "service %d: status Stopped, but the context had not ended before Finish (#%d)", s.Idx, f.Seq)
-				return
-			}
+
 			if st.Closed && !clientBefore {
 				r.Fail("finish-wrong-args", "service %d: status Closed, but its client had not closed before Finish (#%d)", s.Idx, f.Seq)
 				return
@@ -655,7 +654,7 @@ func (w *loopWorld) check(failErr error, ctxErrClosed bool) {
 	closedListener := func(err error) bool { return err != nil && errors.Is(err, net.ErrClosed) }
 	switch {
 	case failErr != nil && w.acceptErr == failErr:
-		if w.loopErr != failErr {
+		if !errors.Is(w.loopErr, failErr) {
 			r.Fail("loop-wrong-result", "the accepter failed with %q, Loop returned %v", failErr, w.loopErr)
 			return
 		}
@@ -665,7 +664,7 @@ func (w *loopWorld) check(failErr error, ctxErrClosed bool) {
 			return
 		}
 	case w.acceptErr != nil:
-		if w.loopErr != w.acceptErr {
+		if !errors.Is(w.loopErr, w.acceptErr) {
 			r.Fail("loop-wrong-result", "the accepter failed with %v, Loop returned %v", w.acceptErr, w.loopErr)
 			return
 		}
@@ -677,7 +676,7 @@ func (w *loopWorld) check(failErr error, ctxErrClosed bool) {
 			return
 		}
 	}
-	if w.loopErr != nil && w.loopErr != failErr && w.loopErr != w.acceptErr {
+	if w.loopErr != nil && !(failErr != nil && errors.Is(w.loopErr, failErr)) && !(w.acceptErr != nil && errors.Is(w.loopErr, w.acceptErr)) {
 		r.Fail("loop-wrong-result", "Loop returned %v, an error that the accepter never reported (accepter: %v)", w.loopErr, w.acceptErr)
 		return
 	}
@@ -688,6 +687,14 @@ func (w *loopWorld) check(failErr error, ctxErrClosed bool) {
 				r.Fail("finish-wrong-args", "connection %d: reply %d is %s", c.Idx, i, rep)
 				return
 			}
+		}
+	}
+	// Goroutines of the library that serve for as long as the context lives (a
+	// watcher that closes the listener, say) are no leak: end the context first.
+	if w.cancel != nil {
+		w.cancel()
+		if !r.RunQ() {
+			return
 		}
 	}
 	var left []string
